@@ -1,6 +1,7 @@
 (* C10 — A failed parse reports a real failure offset - the furthest one without memo. *)
 From PegV Require Import Utf8 Utf8Facts State Terminals TerminalsSpec TerminalsOk Syntax Fields
   FieldsFacts GetFieldsFacts Literals LiteralsFacts Model Spec ShapeFacts ErrLog Sim Conform ConformX Extracted Real.
+From PegV Require Import CleanFrame UsualShape NoSentinel UsualShapeExamples.
 
 Theorem C10_facts :
   rec_le Extracted.scfg = true /\ Extracted.tcfg = term_cfg_expected /\
@@ -63,3 +64,67 @@ Theorem C10_real :
     In e (g_fails gl') \/ e_spec e = LeftRecursionSentinel \/ e_spec e = OtherError.
 Proof. intros. eapply reported_error_is_real; eauto. Qed.
 Print Assumptions C10_real.
+
+(* ---- "it is never the internal left-recursion sentinel when left-recursive rules list their recursive
+   alternatives first" --------------------------------------------------------------------------------
+   NoSentinel.v.  With the newer-or-equal-replaces comparison of record_error (fact rec_le): in the part of
+   a grammar from which no @memoize / @leftrec rule is reachable, every real failure at or beyond an offset
+   p replaces a sentinel recorded at or before p, and every error such an evaluation returns is a real one
+   (C10_clean_part_replaces_the_sentinel: an invariant of every template, every bound, stateful hooks).
+   Hence for the usual shape  A = l:A x... | b1 | balts...  (recursive alternative first, the other
+   alternatives over such rules), entered in a state whose recorded error is not a sentinel - the exported
+   root in particular - with nothing skipped between the entry and the recursive field: a failing parse of A
+   never reports the sentinel (C10_no_sentinel_usual_shape). *)
+Theorem C10_no_sentinel_usual_shape :
+  forall (ustate : Type) (scfg : state_cfg),
+  rec_le scfg = true ->
+  forall (tcfg : term_cfg) (fcfg : fields_cfg) (rcfg : rule_cfg),
+  leftrec_closed rcfg = true ->
+  forall (hk : hooks ustate) (g : grammar) (A : rule) (l : name) (bx : bool) 
+    (x1 : expr) (xs : list expr) (b1 : expr) (balts : list expr),
+  r_def A = adef A l bx x1 xs b1 balts ->
+  find_grule g (r_name A) = Some (GRule A) ->
+  fl_left_recursive (flags_of (r_directives A)) = true ->
+  forall rf fds fds1 inner1 : list fdesc,
+  get_fields fcfg (gf_fuel g) g (adef A l bx x1 xs b1 balts) = GFOk rf ->
+  filt fcfg g (actx A rf) (adef A l bx x1 xs b1 balts) = Some fds ->
+  filt fcfg g (actx A rf) (alt1 A l bx x1 xs) = Some fds1 ->
+  own_fields fcfg g (alt1 A l bx x1 xs) = Some inner1 ->
+  forall clean : name -> bool,
+  (forall n : name, clean n = true -> rule_clean g clean n) ->
+  (forall (n : name) (r : rule),
+   clean n = true -> find_rule g n = Some r -> eclean clean (r_def r) = true) ->
+  clean n_Whitespace = true ->
+  lclean clean (b1 :: balts) = true ->
+  forall (st : pstate) (F : nat) (gl : glob ustate) (e : perr) (gl' : glob ustate),
+  ws_trivial g A rf st ->
+  (forall f : perr, far st = Some f -> e_spec f <> LeftRecursionSentinel) ->
+  cache_get (r_name A) (off st) (g_cache gl) = None ->
+  ev_rule (run ustate scfg tcfg fcfg rcfg hk g F) (r_name A) st gl = (MErr e, gl') ->
+  e_spec e <> LeftRecursionSentinel.
+Proof. exact usual_no_sentinel. Qed.
+Print Assumptions C10_no_sentinel_usual_shape.
+
+Theorem C10_clean_part_replaces_the_sentinel :
+  forall (ustate : Type) (scfg : state_cfg),
+  rec_le scfg = true ->
+  forall (tcfg : term_cfg) (fcfg : fields_cfg) (rcfg : rule_cfg) (hk : hooks ustate) 
+    (g : grammar) (clean : name -> bool),
+  (forall n : name, clean n = true -> rule_clean g clean n) ->
+  (forall (n : name) (r : rule),
+   clean n = true -> find_rule g n = Some r -> eclean clean (r_def r) = true) ->
+  clean n_Whitespace = true ->
+  forall p n : nat, Uev ustate clean p (run ustate scfg tcfg fcfg rcfg hk g n).
+Proof. exact no_sentinel_walk. Qed.
+Print Assumptions C10_clean_part_replaces_the_sentinel.
+
+(* the hypotheses are met by  @export @leftrec E = l:*E '+' n:N | n:N : its parse never reports the sentinel;
+   "x" is rejected with the real failure of the base *)
+Theorem C10_no_sentinel_instance :
+  (forall input F e gl',
+     ws_trivial g_sum rE rf_sum (init_state input) ->
+     m_parse unit scfg_doc term_cfg_expected fields_cfg_doc rcfg_doc no_hooks g_sum F nE input tt = (MErr e, gl') ->
+     e_spec e <> LeftRecursionSentinel) /\
+  fst (run_sum [120]%N) = MErr {| e_pos := 0; e_spec := ExpectedCharacterRange 48 57 |}.
+Proof. split; [exact sum_no_sentinel|exact sum_fails_with_a_real_error]. Qed.
+Print Assumptions C10_no_sentinel_instance.
